@@ -34,9 +34,11 @@ type preFn struct {
 var staticPrelude = map[string]preFn{}
 var invokePrelude = map[string]preFn{}
 
-func reg(name string, f func(*preCall) Val)    { staticPrelude[name] = preFn{fn: f} }
-func regW(name string, f func(*preCall) Val)   { staticPrelude[name] = preFn{fn: f, writesPtrArgs: true} }
-func regInv(name string, f func(*preCall) Val) { invokePrelude[name] = preFn{fn: f, writesPtrArgs: true} }
+func reg(name string, f func(*preCall) Val)  { staticPrelude[name] = preFn{fn: f} }
+func regW(name string, f func(*preCall) Val) { staticPrelude[name] = preFn{fn: f, writesPtrArgs: true} }
+func regInv(name string, f func(*preCall) Val) {
+	invokePrelude[name] = preFn{fn: f, writesPtrArgs: true}
+}
 
 func (p *preCall) fc() *FnCtx { return p.fr.fc }
 
@@ -150,6 +152,12 @@ func init() {
 		fc.B.DeclFun("trimspace", []string{"String"}, "String")
 		t := "(trimspace " + p.str(0) + ")"
 		fc.B.Assert(and("(<= (str.len "+t+") (str.len "+p.str(0)+"))", "(str.contains "+p.str(0)+" "+t+")", implies(eq(p.str(0), "\"\""), eq(t, "\"\""))))
+		// blank result: every byte is ASCII white space or part of a multi-byte rune (Unicode spaces such as
+		// U+0085/U+00A0 are encoded with bytes >= 0x80); conversely a string of ASCII white space trims to ""
+		asciiWS := `(re.union (re.range "\u{9}" "\u{d}") (str.to_re " "))`
+		fc.B.Assert(and(
+			implies(eq(t, "\"\""), "(str.in_re "+p.str(0)+" (re.* (re.union "+asciiWS+" (re.range \"\\u{80}\" \"\\u{ff}\"))))"),
+			implies("(str.in_re "+p.str(0)+" (re.* "+asciiWS+"))", eq(t, "\"\""))))
 		return strVal(t)
 	})
 	reg("strings.Split", func(p *preCall) Val { return p.fr.split(p) })
@@ -180,6 +188,9 @@ func init() {
 	reg("strconv.ParseUint", func(p *preCall) Val {
 		fc := p.fc()
 		s := p.str(0)
+		if len(p.args) < 3 || p.args[1].T != "10" || p.args[2].T != "64" {
+			fc.unsupported("strconv.ParseUint with base/bit size other than the constants 10/64")
+		}
 		// base 10, 64 bits (checked); deterministic: value and error are functions of the input string
 		fc.B.DeclFun("parseuint_val", []string{"String"}, "Int")
 		fc.B.DeclFun("parseuint_err", []string{"String"}, "Int")
@@ -379,6 +390,7 @@ func init() {
 	// ---- codec (gogoproto binary codec): deterministic, injective marshal; unmarshal is its inverse
 	regInv("github.com/cosmos/cosmos-sdk/codec.BinaryCodec.MustMarshal", func(p *preCall) Val { return p.fr.marshal(p, false) })
 	regInv("github.com/cosmos/cosmos-sdk/codec.BinaryCodec.Marshal", func(p *preCall) Val { return p.fr.marshal(p, true) })
+	regInv("github.com/cosmos/cosmos-sdk/codec.BinaryCodec.MarshalInterface", func(p *preCall) Val { return p.fr.marshal(p, true) })
 	regInv("github.com/cosmos/cosmos-sdk/codec.BinaryCodec.MustUnmarshal", func(p *preCall) Val { return p.fr.unmarshal(p, false) })
 	regInv("github.com/cosmos/cosmos-sdk/codec.BinaryCodec.Unmarshal", func(p *preCall) Val { return p.fr.unmarshal(p, true) })
 
@@ -619,11 +631,11 @@ func (fr *Frame) split(p *preCall) Val {
 	// exact unrolling of the first K parts (for a non-empty separator): part i is the text before the
 	// first separator of the remainder r_i; the number of parts is exact up to K and ">= K+1" beyond.
 	const K = 3
-	fc.B.Assert(and("(not (s_nil "+res+"))", "(>= "+n+" 1)", eq("(join_str "+res+" "+sep+")", s)))
+	fc.B.Assert(and("(not (s_nil "+res+"))", "(>= "+n+" 1)", "(< "+n+" 9223372036854775808)", eq("(join_str "+res+" "+sep+")", s)))
 	nonEmpty := "(> (str.len " + sep + ") 0)"
 	rem := s
 	more := "true" // all previous remainders contained the separator
-	for i := 0; i < K; i++ {
+	for i := 0; i < K && !fc.B.SplitTail; i++ {
 		r := fc.B.Define("split_rem", "String", rem)
 		has := "(str.contains " + r + " " + sep + ")"
 		idx := "(str.indexof " + r + " " + sep + " 0)"
@@ -639,10 +651,23 @@ func (fr *Frame) split(p *preCall) Val {
 	// parts before it, the separator, and the last part (right unrolling of Join over the prefix res[:n-1],
 	// written exactly as the engine writes that sub-slice)
 	last := "(select (s_arr " + res + ") (- " + n + " 1))"
-	fc.B.Assert(implies(nonEmpty, and(
-		not("(str.contains "+last+" "+sep+")"),
-		implies("(>= "+n+" 2)", eq(s, "(str.++ (join_str (mkS false (- "+n+" 1) (s_arr "+res+")) "+sep+") "+sep+" "+last+")")),
-		eq("(>= "+n+" 2)", "(str.contains "+s+" "+sep+")"))))
+	if fc.B.SplitExt || fc.B.SplitTail {
+		fc.B.Assert(implies(nonEmpty, and(
+			not("(str.contains "+last+" "+sep+")"),
+			implies("(>= "+n+" 2)", eq(s, "(str.++ (join_str (mkS false (- "+n+" 1) (s_arr "+res+")) "+sep+") "+sep+" "+last+")")),
+			eq("(>= "+n+" 2)", "(str.contains "+s+" "+sep+")"))))
+	}
+	if fc.B.SplitExt || fc.B.SplitTail {
+		// the input is the parts joined by the separator (written out for up to three parts)
+		pt := func(i int) string { return "(select (s_arr " + res + ") " + strconv.Itoa(i) + ")" }
+		fc.B.Assert(and(
+			implies(eq(n, "1"), eq(s, pt(0))),
+			implies(eq(n, "2"), eq(s, "(str.++ "+pt(0)+" "+sep+" "+pt(1)+")")),
+			implies(eq(n, "3"), eq(s, "(str.++ "+pt(0)+" "+sep+" "+pt(1)+" "+sep+" "+pt(2)+")"))))
+		// the separator is a prefix of the input and does not occur again: exactly ["", rest]
+		fc.B.Assert(implies(and(nonEmpty, "(str.prefixof "+sep+" "+s+")", not("(str.contains (str.substr "+s+" 1 (- (str.len "+s+") 1)) "+sep+")")),
+			and(eq(n, "2"), eq("(select (s_arr "+res+") 0)", "\"\""), eq("(select (s_arr "+res+") 1)", "(str.substr "+s+" (str.len "+sep+") (- (str.len "+s+") (str.len "+sep+")))"))))
+	}
 	fc.B.Note("strings.Split: parts 0..3 and the part count up to 4 are exact (first-separator unrolling); beyond that only join/no-separator facts")
 	return Val{S: "(Slice String)", T: res, Typ: types.NewSlice(types.Typ[types.String])}
 }
